@@ -15,35 +15,6 @@ import (
 	"verif.local/kit"
 )
 
-func (m *hlModel) onlineData(r basics.Round, a basics.Address) basics.OnlineAccountData {
-	d := m.acct(r, a)
-	if d.Status != basics.Online {
-		return basics.OnlineAccountData{}
-	}
-	w := hlWithRewards(d, m.proto(r).RewardUnit, m.hdrs[r].RewardsLevel)
-	return basics.OnlineAccountData{MicroAlgosWithRewards: w.MicroAlgos, VotingData: d.VotingData, IncentiveEligible: d.IncentiveEligible, LastProposed: d.LastProposed, LastHeartbeat: d.LastHeartbeat}
-}
-
-func (m *hlModel) circulation(r, voteRnd basics.Round) (*big.Int, *big.Int) {
-	total, expired := new(big.Int), new(big.Int)
-	p := m.proto(r)
-	for _, a := range m.addresses() {
-		d := m.acct(r, a)
-		if d.Status != basics.Online {
-			continue
-		}
-		w := new(big.Int).SetUint64(hlWithRewards(d, p.RewardUnit, m.hdrs[r].RewardsLevel).MicroAlgos.Raw)
-		total.Add(total, w)
-		if d.VoteLastValid != 0 && voteRnd > d.VoteLastValid {
-			expired.Add(expired, w)
-		}
-	}
-	if p.ExcludeExpiredCirculation && r != 0 {
-		return new(big.Int).Sub(total, expired), expired
-	}
-	return total, expired
-}
-
 func c13Check(s *hlSim, after string) {
 	c, l, m := s.c, s.l, s.m
 	latest := m.latest
